@@ -21,6 +21,7 @@ import (
 
 	"github.com/refraction-networking/utls/internal/hkdf"
 	"github.com/refraction-networking/utls/internal/tls13"
+	"golang.org/x/crypto/cryptobyte"
 )
 
 type clientHandshakeStateTLS13 struct {
@@ -390,11 +391,6 @@ func (hs *clientHandshakeStateTLS13) processHelloRetryRequest() error {
 	// and utlsExtensionPadding are supposed to change
 	if hs.uconn != nil {
 		if hs.uconn.ClientHelloID != HelloGolang {
-			if len(hs.hello.pskIdentities) > 0 {
-				// TODO: wait for someone who cares about PSK to implement
-				return errors.New("uTLS does not support reprocessing of PSK key triggered by HelloRetryRequest")
-			}
-
 			keyShareExtFound := false
 			for _, ext := range hs.uconn.Extensions {
 				// new ks seems to be generated either way
@@ -442,6 +438,36 @@ func (hs *clientHandshakeStateTLS13) processHelloRetryRequest() error {
 				return err
 			}
 			hs.hello.original = hs.uconn.HandshakeState.Hello.Raw
+			if len(hs.hello.pskIdentities) > 0 && hs.session != nil {
+				// The binders cover the transcript up to the HelloRetryRequest and the
+				// re-marshaled second ClientHello up to the binders list (RFC 8446,
+				// Section 4.2.11.2): recompute them over the uTLS-marshaled hello and
+				// write them into its tail, the length does not change.
+				transcript := hs.suite.hash.New()
+				transcript.Write([]byte{typeMessageHash, 0, 0, uint8(len(chHash))})
+				transcript.Write(chHash)
+				if err := transcriptMsg(hs.serverHello, transcript); err != nil {
+					return err
+				}
+				if err := computeAndUpdatePSK(hs.hello, hs.binderKey, transcript, hs.suite.finishedHash); err != nil {
+					return err
+				}
+				truncated, err := hs.hello.marshalWithoutBinders()
+				if err != nil {
+					return err
+				}
+				b := cryptobyte.NewFixedBuilder(hs.hello.original[:len(truncated)])
+				b.AddUint16LengthPrefixed(func(b *cryptobyte.Builder) {
+					for _, binder := range hs.hello.pskBinders {
+						b.AddUint8LengthPrefixed(func(b *cryptobyte.Builder) {
+							b.AddBytes(binder)
+						})
+					}
+				})
+				if out, err := b.Bytes(); err != nil || len(out) != len(hs.hello.original) {
+					return errors.New("tls: internal error: failed to update binders")
+				}
+			}
 		}
 	}
 	// [uTLS SECTION ENDS]
